@@ -27,6 +27,12 @@ def make_registry():
     reg = Registry()
     reg.bounds = {}
     install_default_models(reg)
+    try:
+        from contracts import external
+        external.install(reg)
+        reg.trusted_external = list(external.TRUSTED)
+    except ImportError:
+        reg.trusted_external = []
     return reg
 
 
@@ -524,6 +530,8 @@ def _jsonable(v):
         return {'object': v.cls.__name__, 'fields': _jsonable(v.fields)}
     if isinstance(v, (int, str, bool, float, type(None))):
         return v
+    if hasattr(v, 'secret') and hasattr(v, 'public_hex'):
+        return {'object': type(v).__name__, 'fields': {'secret': v.secret, 'public_hex': v.public_hex}}
     return repr(v)
 
 
